@@ -3,7 +3,7 @@ import ast
 
 from ..loader import norm, AnalysisError
 from .. import legs as lg
-from ..legs import LegError, TVal
+from ..legs import LegError, LegUnknown, TVal
 from ..legs_interp import LegInterp, QV, TupleVal, SigmaVal
 from .common import where
 
@@ -134,6 +134,8 @@ def check_local_step(chk, rid, repo, q, charges_rid=None):
     try:
         fi, kind, direction, fact, A, N, it, out = run_local_step(repo, q)
     except LegError as ex:
+        if isinstance(ex, LegUnknown):
+            raise           # not understood is not a finding
         fi = repo.func(q)
         chk.ob(rid, where(repo, fi, fi.node), f'{fi.name}: body is well-formed in the leg domain', False, str(ex),
                key=f'{rid}|{q}|wellformed')
@@ -152,6 +154,8 @@ def check_local_step(chk, rid, repo, q, charges_rid=None):
         try:
             ok, detail = gauge_check(kind, direction, A, N, outA, outN)
         except LegError as ex:
+            if isinstance(ex, LegUnknown):
+                raise           # not understood is not a finding
             ok, detail = False, str(ex)
         chk.ob(rid, w, f'{fi.name}: the two returned tensors contracted over the new bond denote the two input tensors '
                f'contracted over the old bond (given the factorisation contract)', ok, detail, key=f'{rid}|{q}|gauge')
@@ -183,10 +187,26 @@ def body_env(psi, i):
     return env
 
 
+def _position_test(t, i):
+    """a test on the position of the sweep only (loop variable, lattice size, constants)"""
+    names = {n.id for n in ast.walk(t) if isinstance(n, ast.Name)}
+    return isinstance(t, (ast.Compare, ast.BoolOp, ast.UnaryOp)) and i in names and names <= {i, 'L', 'length', 'nsites'} and \
+        not any(isinstance(n, (ast.Call, ast.Attribute, ast.Subscript)) for n in ast.walk(t))
+
+
 def check_loop_body(chk, rid, repo, fi, stmts, i, label, psi='psi'):
     """Evaluate the statements of one sweep position in the leg domain (local evolution / optimisation steps are the
     identity on leg structure) and check: quantum numbers of every factorisation call, orientation of every stored
-    label, and that the updated pair of site tensors still denotes the old pair (gauge invariance)."""
+    label, and that the updated pair of site tensors still denotes the old pair (gauge invariance).
+    A statement that is executed only at some positions (`if i < L - 2: ...`) gives two bodies, one per outcome; both are
+    checked."""
+    for k, s_ in enumerate(stmts):
+        if isinstance(s_, ast.If) and _position_test(s_.test, i):
+            n_ = 0
+            for arm, tag in ((s_.body, norm(s_.test)), (s_.orelse, f'not ({norm(s_.test)})')):
+                n_ += check_loop_body(chk, rid, repo, fi, list(stmts[:k]) + list(arm) + list(stmts[k + 1:]), i,
+                                      f'{label}, {tag}', psi)
+            return n_
     env0 = body_env(psi, i)
     body = [s for s in stmts if not isinstance(s, (ast.Assert, ast.For))]
     w = where(repo, fi, stmts[0])
@@ -194,6 +214,8 @@ def check_loop_body(chk, rid, repo, fi, stmts, i, label, psi='psi'):
         it = LegInterp(fi, env0, repo=repo, body=body)
         it.run()
     except LegError as ex:
+        if isinstance(ex, LegUnknown):
+            raise           # not understood is not a finding
         chk.ob(rid, w, f'{fi.name} [{label}]: statements of one sweep position are well-formed in the leg domain', False,
                str(ex), key=f'{rid}|{fi.qual}|{label}|wellformed')
         return 1
@@ -228,6 +250,8 @@ def check_loop_body(chk, rid, repo, fi, stmts, i, label, psi='psi'):
                 not red.net.weights
             detail = '; '.join(problems) or f'open {c1["open"]} pairs {c1["pairs"]} vs expected open {c2["open"]} pairs {c2["pairs"]}'
         except LegError as ex:
+            if isinstance(ex, LegUnknown):
+                raise           # not understood is not a finding
             detail = str(ex)
     else:
         detail = f'updated values: {type(A_new).__name__}, {type(B_new).__name__}'
